@@ -225,8 +225,11 @@ def gen_c05(seed_i):
     sched = {"policy": rng.choice(["walk", "walk", "pct", "default"]), "seed": rng.randrange(1 << 30), "p": rng.choice([0.05, 0.3, 0.6]),
              "lines": rng.random() < 0.4, "p_line": rng.choice([0.02, 0.1]), "stall_p": rng.choice([0, 0, 0.02]),
              "d": rng.choice([1, 2, 3]), "horizon": rng.choice([100, 400])}
-    return {"kind": "c05", "batch": cfgb, "producers": producers, "latency": rng.choice([[0.001, 0.002], [0.01, 0.3], [0.2, 2.0]]),
-            "lat_seed": rng.randrange(1 << 30), "sched": sched}
+    cfg = {"kind": "c05", "batch": cfgb, "producers": producers, "latency": rng.choice([[0.001, 0.002], [0.01, 0.3], [0.2, 2.0]]),
+           "lat_seed": rng.randrange(1 << 30), "sched": sched}
+    if rng.random() < 0.4:
+        cfg["resp_page"] = rng.choice([1, 1, 2])  # responses larger than this are paginated through get_execution_state
+    return cfg
 
 
 class _ProtoService:
@@ -239,6 +242,8 @@ class _ProtoService:
         self.tok = 0
         self.expected = "tok-0"
         self.calls = []
+        self.pages = {}
+        self.page_n = 0
         self.rng = random.Random(cfg.get("lat_seed", 0))
 
     def checkpoint(self, durable_execution_arn, checkpoint_token, updates, client_token):
@@ -254,11 +259,34 @@ class _ProtoService:
         self.expected = f"tok-{self.tok}"
         self.rec("api-applied", names=names)
         self.s.sleep(lo * 0.5, True, "api-resp")
+        ops = [lsvc.Operation(operation_id=u.operation_id, operation_type=u.operation_type, status=lsvc.OperationStatus.SUCCEEDED,
+                              name=u.name) for u in updates]
+        page = self.cfg.get("resp_page")
+        marker = None
+        if page and len(ops) > page:
+            self.page_n += 1
+            marker = f"m{self.page_n}"
+            self.pages[marker] = ops[page:]
+            ops = ops[:page]
+            self.rec("api-paginated", names=names)
         return lsvc.CheckpointOutput(checkpoint_token=self.expected,
-                                     new_execution_state=lsvc.CheckpointUpdatedExecutionState(operations=[], next_marker=None))
+                                     new_execution_state=lsvc.CheckpointUpdatedExecutionState(operations=ops, next_marker=marker))
 
-    def get_execution_state(self, *a, **k):
-        raise AssertionError("not used")
+    def get_execution_state(self, durable_execution_arn, checkpoint_token, next_marker, max_items=1000):
+        lsvc = seams.sdk("lambda_service")
+        lo, hi = self.cfg["latency"]
+        self.rec("page-begin", marker=next_marker)
+        self.s.sleep(lo + (hi - lo) * self.rng.random(), True, "api-page")
+        ops = self.pages.pop(next_marker)
+        page = self.cfg.get("resp_page") or 1000
+        marker = None
+        if len(ops) > page:
+            self.page_n += 1
+            marker = f"m{self.page_n}"
+            self.pages[marker] = ops[page:]
+            ops = ops[:page]
+        self.rec("page-end", marker=next_marker, names=[o.name for o in ops])
+        return lsvc.StateOutput(operations=ops, next_marker=marker)
 
 
 def run_c05(cfg):
@@ -300,7 +328,8 @@ def run_c05(cfg):
                         ident.OperationIdentifier(operation_id=f"id-{pi}-{oi}", parent_id=None, name=name), payload="x" * op["size"])
                 rec("cp-call", p=pi, o=oi, name=name if upd is not None else None, sync=op["sync"])
                 es.create_checkpoint(upd, is_sync=op["sync"])
-                rec("cp-ret", p=pi, o=oi, name=name if upd is not None else None, sync=op["sync"])
+                rec("cp-ret", p=pi, o=oi, name=name if upd is not None else None, sync=op["sync"],
+                    merged=(f"id-{pi}-{oi}" in es.operations) if upd is not None else None)
             rec("producer-done", p=pi)
 
         for pi, ops in enumerate(cfg["producers"]):
@@ -386,6 +415,12 @@ def oracle_c05(cfg, r):
         if e["k"] == "cp-ret" and e["sync"] and e["name"]:
             if e["name"] not in applied_at or applied_at[e["name"]] > e["s"]:
                 out.append(V("C05", "sync-released-before-applied", f"synchronous caller of {e['name']} released before its update was applied"))
+    # the response (all its pages) is merged into the state before the batch's synchronous callers are released
+    for e in log:
+        if e["k"] == "cp-ret" and e["sync"] and e["name"] and e.get("merged") is False:
+            out.append(V("C05", "sync-released-before-response-merged", f"synchronous caller of {e['name']} was released before the checkpoint "
+                         f"response (a later page of it) had been merged into the execution state"))
+            break
     # token chain and limits
     for i, c in enumerate(calls):
         if c["token"] != c["expected"]:
@@ -412,6 +447,8 @@ def reach_c05(cfg, r):
         out["oversize-update-sent"] = 1
     if any(len(c["names"]) == 0 for c in calls):
         out["empty-checkpoint-call"] = 1
+    if any(e["k"] == "api-paginated" for e in r["log"]):
+        out["paginated-response"] = 1
     for pi, ops in enumerate(cfg["producers"]):
         for oi, op in enumerate(ops):
             if op["size"] is not None and op["size"] > b["bytes"]:
